@@ -173,6 +173,12 @@ impl MarkdownWriter {
                 GraphInline::LineBreak => {
                     events.push(Event::HardBreak);
                 }
+                GraphInline::Link(url, title, t, inlines) if t != document::LinkType::Regular => {
+                    // the events writer knows no wiki links: written as everywhere else, with
+                    // the pipe of a piped link escaped (it would end the table cell)
+                    let link = GraphInline::Link(url, title, t, inlines).to_markdown(&self.options);
+                    events.push(Event::InlineHtml(link.replace("|", "\\|").into()));
+                }
                 GraphInline::Link(url, title, t, inlines) => {
                     let text = inlines_to_markdown(&inlines, &self.options);
                     if !is_ref_url(&url) && text.eq_ignore_ascii_case(&url) {
